@@ -141,10 +141,11 @@ func (s *scn) templates(r *sim.Rand) map[string][]*pb.Arg {
 		prop = s.proposals[len(s.proposals)-1-r.Intn(min(len(s.proposals), 4))]
 	}
 	return map[string][]*pb.Arg{
-		"AppchainManager.RegisterAppchain":   {S("chain" + u), S("name" + u), B(nil), S("ETH"), B(nil), S("broker"), S("desc"), S(happyRule), S("url"), S(fresh), S("reason")},
-		"AppchainManager.UpdateAppchain":     {S(c.id), S("name-" + c.id + u), S("desc2"), B(nil), S(c.admin.Addr.String()), S("reason")},
-		"ServiceManager.RegisterService":     {S(c.id), S("svc" + u), S("nm" + u), S("CallContract"), S("intro"), U(1), S(""), S("details"), S("reason")},
-		"ServiceManager.UpdateService":       {S(c.id + ":" + sv.id), S("nm-" + c.id + sv.id + u), S("intro2"), S(""), S("details2"), S("reason")},
+		"AppchainManager.RegisterAppchain": {S("chain" + u), S("name" + u), B(nil), S("ETH"), B(nil), S("broker"), S("desc"), S(happyRule), S("url"), S(fresh), S("reason")},
+		"AppchainManager.UpdateAppchain":   {S(c.id), S("name-" + c.id + u), S("desc2"), B(nil), S(c.admin.Addr.String()), S("reason")},
+		"ServiceManager.RegisterService":   {S(c.id), S("svc" + u), S("nm" + u), S("CallContract"), S("intro"), U(1), S(""), S("details"), S("reason")},
+		// name and details as registered: intro/permits alone take the no-proposal path
+		"ServiceManager.UpdateService":       {S(c.id + ":" + sv.id), S("nm-" + c.id + sv.id), S("intro" + u), S([]string{"", sv.full(s.cfg.World.ChainID)}[r.Intn(2)]), S("details"), S("reason")},
 		"ServiceManager.EvaluateService":     {S(c.id + ":" + sv.id), S("fine"), {Type: pb.Arg_F64, Value: []byte("4.5")}},
 		"DappManager.RegisterDapp":           {S("dapp" + u), S("tool"), S("desc"), S("http://dapp" + u), S(fresh), S(""), S("reason")},
 		"DappManager.TransferDapp":           {S(fresh + "-0"), S(s.users[0].Addr.String()), S("reason")},
